@@ -124,6 +124,7 @@ fn cmd_hist(a: &Args) -> Ev {
         rj["only_hist"] = json!(hi);
         let mut hs = hist::Hist::new(world, &prop, is_set, g, rj);
         hs.sweep_every = a.u("sweep_every", 1);
+        hs.fast = a.u("fast", 0) == 1;
         let mut sample_ops: Vec<String> = Vec::new();
         for _ in 0..hist_len {
             if total >= steps || hs.step_no >= stop_at || budget.expired() {
